@@ -119,7 +119,13 @@ func (s *ftpService) Handle(ctx context.Context, conn net.Conn) error {
 	// connection's commands under this connection's addresses
 	recv := make(chan string)
 
-	ftpConn := s.server.newConn(conn, s.driver, recv)
+	// every session has its own working directory
+	driver := s.driver
+	if fs, ok := driver.(*Fs); ok && fs.Htfs != nil {
+		driver = NewFileDriver(fs.Htfs.Session())
+	}
+
+	ftpConn := s.server.newConn(conn, driver, recv)
 
 	done := make(chan struct{})
 
